@@ -156,6 +156,16 @@ def gen_jobs(ctx):
             attrs.append({"name": f"a{i}", "dtype": dt, "shape": [] if dt in ("bytes", "str") else rng.choice(SHAPES)})
         exs = [[gen_value(rng, fmt, a, rng.choice(PRES)) for a in attrs] for _ in range(rng.choice([1, 3, 4]))]
         jobs.append({"format": fmt, "compression": rng.choice(COMPRESSIONS[fmt]), "eps": rng.choice([1, 2, 3]), "attrs": attrs, "examples": exs})
+    # attributes DECLARED with an explicit byte order (">i4", "<u2", "=f8"): the same values must come back whatever the spelling of the declaration
+    for dt, decl in (("int32", ">i4"), ("float64", ">f8"), ("uint16", "<u2"), ("int64", "=i8"), ("float32", ">f4")):
+        a = {"name": "a0", "dtype": dt, "declared": decl, "shape": [2, 3]}
+        jobs.append({"format": "fb", "compression": "", "eps": 2, "attrs": [a], "examples": [[gen_value(rng, "fb", a, pres)] for pres in ("C", "be", "F")]})
+    # two datasets with an equally named attribute of different dtype read through the Rust interface at the same time
+    for dt, odt in (("int32", "float32"), ("uint8", "int8"), ("float64", "int64")):
+        a = {"name": "a0", "dtype": dt, "shape": [3]}
+        b = {"name": "a0", "dtype": odt, "shape": [3]}
+        jobs.append({"format": "fb", "compression": "", "eps": 2, "attrs": [a], "examples": [[gen_value(rng, "fb", a, "C")] for _ in range(4)],
+                     "companion": {"attrs": [b], "examples": [[gen_value(rng, "fb", b, "C")] for _ in range(4)]}, "only_readers": ["sync", "rust_interleaved"]})
     # shards well above 1 MiB (a float64[400, 400] value is 1.28 MB): codecs may treat large inputs differently (blocks, frames, members) and every
     # reader, the Rust one included, has to cope; not sent through the Coq model (the value alone would be a 160 000-element literal)
     for comp in (COMPRESSIONS["fb"] if ctx.tier == "thorough" else ["GZIP", "LZ4", "ZLIB"]):
@@ -170,6 +180,10 @@ def gen_jobs(ctx):
         rs = list(READERS[j["format"]])
         if j["format"] == "npz" and any(a["dtype"] in ("bytes", "str") for a in j["attrs"]):
             rs.remove("tf")        # as_tfdataset has no TensorFlow dtype for a bytes/str attribute of an npz dataset: an unsupported cell, it fails loudly
+        if j.get("only_readers"):
+            rs = list(j["only_readers"])
+        if any("declared" in a for a in j["attrs"]):
+            rs.remove("tf")        # ... nor for a dtype string with an explicit byte order ('>i4'): TypeError from TensorFlow for every such dataset
         j["readers"] = rs
     return jobs
 
@@ -524,7 +538,8 @@ def run(ctx):
                 "safely castable narrower dtype, NumPy scalar, nested list) x extreme bit patterns (min/max, sign bit, +-0, +-inf, quiet/signalling NaN payloads, subnormals, random bits; bytes/str with NULs, empty, non-ASCII); "
                 "the bytes lying in the .fb files are compared with the model's fb_write_attr, and what every reader returns (dtype, shape, bit pattern) with the written value",
         "input_distribution": stats, "model_vs_impl_compared": n_model, "model_vs_impl_agree": n_agree, "cast_table_cells": 64 if ct else 0, "cast_table_disagreements": len(table_bad),
-        "unsupported_cells_not_run": ["npz + bytes/str attribute + as_tfdataset (TypeError: no TensorFlow dtype for 'bytes'): fails loudly for every such dataset"],
+        "unsupported_cells_not_run": ["npz + bytes/str attribute + as_tfdataset (TypeError: no TensorFlow dtype for 'bytes'): fails loudly for every such dataset",
+                                      "attribute declared with an explicit byte order ('>i4', '<u2', '=i8') + as_tfdataset (TypeError: TensorFlow cannot convert the dtype string): fails loudly for every such dataset"],
     })
     ctx.assumptions += ["little-endian host (the big-endian host branch is covered by the theorem only)"]
 
